@@ -32,7 +32,7 @@ Advance(r) ==
   ELSE IF r.phase = "ext" THEN [r EXCEPT !.phase = "body", !.need = AfterExt(r.hdr[4], r.hdr[5])]
   ELSE r
 
-TInit == l = 1 /\ rd = Idle /\ conn = [lens |-> <<>>, hdrs |-> <<>>, cut |-> 0, full |-> 0] /\ k = 0 /\ used = 0 /\ st = "run"
+TInit == l = 1 /\ rd = Idle /\ conn = [lens |-> <<>>, hdrs |-> <<>>, forced |-> <<>>, cut |-> 0, full |-> 0] /\ k = 0 /\ used = 0 /\ st = "run"
 
 TReset == Is("reset") /\ conn' = Ev /\ rd' = Idle /\ k' = 0 /\ used' = 0 /\ st' = "run" /\ l' = l + 1
 
@@ -73,7 +73,8 @@ TPacket == Is("packet") /\ st = "run" /\ rd.phase = "body" /\ rd.need = 0
 TNext == TReset \/ TStart \/ TPoll \/ TPending \/ TEof \/ TError \/ TPacket
 
 \* writer / reader header agreement as the trace sees it: the header form the writer chose is the one the format prescribes
-HeaderForm == \A j \in 1..Len(conn.lens) : conn.hdrs[j] = (IF conn.lens[j] <= ShortMax THEN 3 ELSE 5)
+\* (packets the driver re-framed on purpose - a peer may announce any length in the extended form - are marked `forced`)
+HeaderForm == \A j \in 1..Len(conn.lens) : conn.hdrs[j] = (IF conn.lens[j] <= ShortMax /\ conn.forced[j] = 0 THEN 3 ELSE 5)
 
 Accepted == LET d == TLCGet("stats").diameter IN
             IF d - 1 = Len(Rec) THEN TRUE
